@@ -23,7 +23,7 @@ from sim.worlds import build, catalog, gen
 NAME = "purity"
 PROPERTY = "C11"
 
-ALL_TEMPLATES = ["structures", "dataset", "inversion", "simulator", "vis_interface"]
+ALL_TEMPLATES = ["structures", "dataset", "inversion", "simulator", "vis_interface", "triangles"]
 CONF_KNOBS = {
     "positive_only_uses_p_initial": [True, False],
     "use_positive_only_solver": [True, False],
@@ -129,9 +129,12 @@ class PuritySim:
 
     def gen_knobs(self):
         r = self.streams["world"]
-        t = [x for x in ALL_TEMPLATES if r.random() < {"structures": 0.6, "dataset": 0.6, "inversion": 0.55, "simulator": 0.25, "vis_interface": 0.15}[x]]
+        t = [x for x in ALL_TEMPLATES if r.random() < {"structures": 0.6, "dataset": 0.6, "inversion": 0.55, "simulator": 0.25, "vis_interface": 0.15, "triangles": 0.15}[x]]
         if not t:
             t = [r.choice(["structures", "inversion", "dataset"])]
+        for extra in self.cfg.get("force_templates", []):
+            if extra not in t:
+                t.append(extra)
         fault = self.mode == "fault"
         return {
             "templates": t,
@@ -454,6 +457,14 @@ class PuritySim:
             self.log.append(ev="read", target=target, type=tn, q=label, outcome="fault:" + compare.digest(tree), fault="solver_fail")
             self.uncheck("read_during_solver_fault")
             self.after_event(f"read:{tn}.{label} (solver fault)")
+            return True
+        if tn == "Preloads":
+            # Preloads.set_*(fit_0, fit_1) fills the object's own slots by design (they alias the source inversion's arrays), so what a
+            # Preloads reports IS its history; its slots are not reported quantities of the statement (DESIGN 4.1).  The call is
+            # executed for its effect on the nodes passed in, which after_event and the reader-after-writer reads do check.
+            self.log.append(ev="read", target=target, type=tn, q=label, outcome=compare.digest(tree))
+            self.uncheck("preloads_slots_are_history_by_design")
+            self.after_event(f"read:{tn}.{label}")
             return True
         if self.is_tainted(target) or any(self.is_tainted(a) for a in catalog.q_nodes(q)):
             self.log.append(ev="read", target=target, type=tn, q=label, outcome=compare.digest(tree))
